@@ -1,4 +1,600 @@
+(* C09 — proofs about the position accounting model (C09/Model.v).
+   All theorems are stated for an arbitrary record `o : fpops` of floating-point sub-expressions that
+   satisfies the relational facts `fp_ok` (FP0..FP3); nothing here depends on float axioms. *)
 From Coq Require Import List ZArith Bool Lia.
+Import ListNotations.
 From V Require Import Base.U32 Gen.RsConsts C09.Model.
 Local Open Scope Z_scope.
-Lemma placeholder : True. Proof. exact I. Qed.
+
+(* ---------- generated constants used by the proofs ---------- *)
+Record consts_facts : Prop := {
+  cf_off : RELAY_OFF = 0; cf_down : RELAY_DOWN = 1; cf_up : RELAY_UP = 2;
+  cf_t0 : TILT_NOT_SUPPORTED = 0; cf_t1 : TILT_KEEP_POSITION = 1; cf_t2 : TILT_CHANGE_POSITION = 2; cf_t3 : TILT_ONLY_CLOSED = 3 }.
+Lemma consts_ok : consts_facts.
+Proof. constructor; vm_compute; reflexivity. Qed.
+
+(* ---------- the relational facts on the floating-point sub-expressions ---------- *)
+Record fp_ok (o : fpops) : Prop := {
+  (* (x / 10000.0) * 0 = 0 *)
+  FP0 : forall r, fp_rem o r 0 = 0;
+  (* two roundings: within one of the exact floor *)
+  FP1 : forall r T, 0 <= r <= 10000 -> 0 < T < 4294967296 ->
+        r * T / 10000 - 1 <= fp_rem o r T <= r * T / 10000 + 1;
+  (* exact product, one rounding, quotient far below 2^20: the truncation is the exact floor *)
+  FP2 : forall t T, 0 <= t < 4294967296 -> 0 < T < 4294967296 -> 10000 * t < 1048576 * T ->
+        fp_dot o t T = 10000 * t / T;
+  (* exact product, one rounding, divisor 10000: the truncation is the exact floor *)
+  FP3 : forall d T, 0 <= d <= 10000 -> 0 <= T < 4294967296 -> fp_tod o d T = d * T / 10000 }.
+
+(* ---------- small arithmetic ---------- *)
+Lemma div_lo a b : 0 < b -> b * (a / b) <= a.
+Proof. intros; apply Z.mul_div_le; lia. Qed.
+Lemma div_hi a b : 0 < b -> a < b * (a / b) + b.
+Proof. intros. pose proof (Z.mul_succ_div_gt a b ltac:(lia)). lia. Qed.
+Lemma div_nonneg a b : 0 <= a -> 0 < b -> 0 <= a / b.
+Proof. intros; apply Z.div_pos; lia. Qed.
+
+Lemma known_true p : known p = true <-> 100 <= p <= 10100.
+Proof. unfold known. rewrite andb_true_iff, !Z.leb_le. tauto. Qed.
+Lemma known_false p : known p = false <-> ~ (100 <= p <= 10100).
+Proof. rewrite <- known_true. destruct (known p); split; congruence. Qed.
+
+(* ---------- range ---------- *)
+Definition pos_ok (p : Z) : Prop := p = 0 \/ 100 <= p <= 10100.
+Definition tilt_ok (t : Z) : Prop := t = -1 \/ t = 0 \/ 100 <= t <= 10100.
+Definition rep_ok (v : Z) : Prop := v = -1 \/ 0 <= v <= 100.
+(* a roller shutter (tilt type 0) has no tilting time configured *)
+Definition wf_cfg (c : cfg) : Prop := tilt_type c = 0 -> tilt_ms c = 0.
+
+Lemma current_position_range p : rep_ok (current_position p).
+Proof.
+  unfold current_position, rep_ok. destruct (known p) eqn:K; [|left; reflexivity].
+  apply known_true in K. right. split.
+  - apply Z.div_pos; lia.
+  - assert ((p - 100 + 50) / 100 < 101) by (apply Z.div_lt_upper_bound; lia). lia.
+Qed.
+Lemma current_tilt_range c t : rep_ok (current_tilt c t).
+Proof.
+  unfold current_tilt, rep_ok. destruct (negb (tilt_supported c)); [left; reflexivity|].
+  destruct (known t) eqn:K; [|right; lia].
+  apply known_true in K. right. split.
+  - apply Z.div_pos; lia.
+  - assert ((t - 100 + 50) / 100 < 101) by (apply Z.div_lt_upper_bound; lia). lia.
+Qed.
+
+Definition remaining (up : bool) (x : Z) : Z := if up then x - 100 else 10100 - x.
+
+Section WithOps.
+Variable o : fpops.
+Hypothesis OK : fp_ok o.
+
+(* the core of every range / direction / accounting argument: one "adjust" block *)
+Lemma adjust_spec up x rt time Tq :
+  100 <= x <= 10100 -> 0 <= time < 4294967296 -> 0 <= Tq < 4294967296 ->
+  rt = 0 \/ rt = fp_rem o (remaining up x) Tq ->
+  let x' := fst (adjust o up x rt time Tq) in
+  let td := snd (adjust o up x rt time Tq) in
+  let c' := if time <? td then 0 else time - td in
+  let r := remaining up x in let r' := remaining up x' in
+  100 <= x' <= 10100 /\ 0 <= r' <= r /\ 0 <= td /\ 0 <= c' <= time /\
+  10000 * (time - c') <= (r - r') * Tq /\
+  (r - r') * Tq < 10000 * (time - c') + 20000 /\
+  (rt = fp_rem o (remaining up x) Tq -> 20000 <= Tq -> 0 < r' -> 10000 * c' < Tq + 10000) /\
+  (0 < td -> x' <> x \/ 10000 <= Tq).
+Proof.
+  intros Hx Ht HT Hrt. cbv zeta.
+  assert (Hr : 0 <= remaining up x <= 10000) by (unfold remaining; destruct up; lia).
+  unfold adjust.
+  destruct (0 <? rt) eqn:E0.
+  2:{ cbn [fst snd]. replace (time <? 0) with false by (symmetry; apply Z.ltb_ge; lia).
+      apply Z.ltb_ge in E0.
+      repeat split; try lia.
+      intros Heq H2 Hr'. exfalso.
+      assert (HTq : 0 < Tq < 4294967296) by lia.
+      pose proof (FP1 o OK _ _ Hr HTq) as F1. rewrite <- Heq in F1.
+      pose proof (div_hi (remaining up x * Tq) 10000 ltac:(lia)) as Hh.
+      assert (remaining up x * Tq < 20000) by lia.
+      assert (1 * Tq <= remaining up x * Tq) by (apply Z.mul_le_mono_nonneg_r; lia). lia. }
+  apply Z.ltb_lt in E0.
+  destruct Hrt as [Hrt|Hrt]; [lia|].
+  assert (HTq : 0 < Tq < 4294967296).
+  { destruct (Z.eq_dec Tq 0) as [->|]; [|lia]. rewrite (FP0 o OK) in Hrt. lia. }
+  pose proof (FP1 o OK _ _ Hr HTq) as F1. rewrite <- Hrt in F1.
+  set (P := remaining up x * Tq) in *.
+  assert (HP : 0 <= P) by (apply Z.mul_nonneg_nonneg; lia).
+  pose proof (div_lo P 10000 ltac:(lia)) as Plo. pose proof (div_hi P 10000 ltac:(lia)) as Phi.
+  destruct (rt <=? time) eqn:E1.
+  - (* the remaining distance fits into the accumulated time: clamp at the end stop *)
+    apply Z.leb_le in E1. cbn [fst snd].
+    change (if up then x - 100 else 10100 - x) with (remaining up x). rewrite (FP3 o OK (remaining up x) Tq Hr HT). fold P.
+    assert (Hend : remaining up (if up then 100 else 10100) = 0) by (unfold remaining; destruct up; lia).
+    rewrite Hend.
+    assert (Hq0 : 0 <= P / 10000) by (apply div_nonneg; lia).
+    destruct (time <? P / 10000) eqn:E2; [apply Z.ltb_lt in E2|apply Z.ltb_ge in E2].
+    + repeat split; try (destruct up; lia); try lia.
+      all: intros Hp; destruct (Z.eq_dec x (if up then 100 else 10100)) as [Heq|]; [|left; destruct up; lia];
+        exfalso; assert (Hz : remaining up x = 0) by (rewrite Heq; exact Hend);
+        assert (Hz2 : P = 0) by (unfold P; rewrite Hz; lia); rewrite Hz2 in Hp; cbn in Hp; lia.
+    + repeat split; try (destruct up; lia); try lia.
+      all: intros Hp; destruct (Z.eq_dec x (if up then 100 else 10100)) as [Heq|]; [|left; destruct up; lia];
+        exfalso; assert (Hz : remaining up x = 0) by (rewrite Heq; exact Hend);
+        assert (Hz2 : P = 0) by (unfold P; rewrite Hz; lia); rewrite Hz2 in Hp; cbn in Hp; lia.
+  - (* move by the distance that the accumulated time stands for *)
+    apply Z.leb_gt in E1. cbn [fst snd].
+    assert (Hle : 10000 * time <= P) by lia.
+    assert (HPle : P <= 10000 * Tq) by (unfold P; apply Z.mul_le_mono_nonneg_r; lia).
+    assert (Hlt20 : 10000 * time < 1048576 * Tq) by lia.
+    rewrite (FP2 o OK time Tq Ht HTq Hlt20).
+    set (d := 10000 * time / Tq).
+    pose proof (div_lo (10000 * time) Tq ltac:(lia)) as Dlo. pose proof (div_hi (10000 * time) Tq ltac:(lia)) as Dhi. fold d in Dlo, Dhi.
+    assert (Hd0 : 0 <= d) by (apply div_nonneg; lia).
+    assert (Hdr : d <= remaining up x).
+    { unfold d. apply Z.div_le_upper_bound; [lia|]. unfold P in Hle. lia. }
+    assert (Hd1 : 0 <= d <= 10000) by lia.
+    rewrite (FP3 o OK d Tq Hd1 HT).
+    set (Q := d * Tq) in *.
+    assert (HQ : 0 <= Q) by (apply Z.mul_nonneg_nonneg; lia).
+    pose proof (div_lo Q 10000 ltac:(lia)) as Qlo. pose proof (div_hi Q 10000 ltac:(lia)) as Qhi.
+    assert (HQt : Q <= 10000 * time) by (unfold Q; lia).
+    assert (Hq0 : 0 <= Q / 10000) by (apply div_nonneg; lia).
+    assert (Hqt : Q / 10000 <= time) by (apply Z.div_le_upper_bound; lia).
+    replace (time <? Q / 10000) with false by (symmetry; apply Z.ltb_ge; lia).
+    assert (Hr' : remaining up (if up then x - d else x + d) = remaining up x - d) by (unfold remaining; destruct up; lia).
+    rewrite Hr'.
+    assert (Hxx : (remaining up x - (remaining up x - d)) * Tq = Q) by (unfold Q; f_equal; lia).
+    rewrite Hxx.
+    repeat split; try (unfold remaining in *; destruct up; lia); try lia.
+    all: intros Hp; destruct (Z.eq_dec d 0) as [Hd|Hd];
+      [exfalso; unfold Q in Hp; rewrite Hd in Hp; cbn in Hp; lia | left; destruct up; lia].
+Qed.
+
+(* ---------- supla_esp_gpio_rs_move_position: range and direction ---------- *)
+Lemma unsupported_no_tilt_time c : wf_cfg c -> tilt_supported c = false -> tilt_ms c = 0.
+Proof.
+  unfold tilt_supported, wf_cfg. intros W H. apply negb_false_iff in H. apply orb_true_iff in H.
+  destruct H as [H|H]; apply Z.eqb_eq in H; auto.
+Qed.
+
+Lemma u32_0 : u32 0 = 0. Proof. reflexivity. Qed.
+
+Lemma move_position_spec c pos tilt time full_ms up :
+  wf_cfg c -> pos_ok pos -> tilt_ok tilt -> 0 <= time < 4294967296 ->
+  let m := move_position o c pos tilt time full_ms up in
+  pos_ok (m_pos m) /\ tilt_ok (m_tilt m) /\ 0 <= m_time m <= time /\
+  (known pos = true -> known (m_pos m) = true /\ 0 <= remaining up (m_pos m) <= remaining up pos) /\
+  (tilt_supported c = true -> known tilt = true ->
+   (tilt_type c = TILT_ONLY_CLOSED -> pos < 10100 -> tilt = 100) ->
+   known (m_tilt m) = true /\ 0 <= remaining up (m_tilt m) <= remaining up tilt).
+Proof.
+  intros W Hp Ht Htime. cbv zeta. unfold move_position.
+  destruct (negb (known pos) || (full_ms =? 0)) eqn:E.
+  { cbn [m_pos m_tilt m_time]. split; [exact Hp|]. split; [exact Ht|]. split; [lia|]. split.
+    - intros K. split; [exact K|]. apply known_true in K. unfold remaining; destruct up; lia.
+    - intros _ K _. split; [exact K|]. apply known_true in K. unfold remaining; destruct up; lia. }
+  apply orb_false_iff in E. destruct E as [Ek _]. apply negb_false_iff in Ek.
+  pose proof Ek as Kp. apply known_true in Kp.
+  set (tilt1 := if tilt_supported c && negb (known tilt) then 100 else tilt).
+  set (full_time := u32 (full_ms * 1000)).
+  set (Tt := u32 (tilt_ms c * 1000)).
+  set (Tp := if keeps_position c then u32 (full_time - Tt) else full_time).
+  set (fixed := (tilt_type c =? TILT_ONLY_CLOSED) && (pos <? 10100)).
+  set (rtt := if fixed then 0 else fp_rem o (u32 (if up then tilt1 - 100 else 10100 - tilt1)) Tt).
+  set (tilt2 := if fixed then 100 else tilt1).
+  set (a1 := adjust o up tilt2 rtt time Tt).
+  set (rpt := if (0 <? snd a1) && keeps_position c then 0 else fp_rem o (u32 (if up then pos - 100 else 10100 - pos)) Tp).
+  set (a2 := adjust o up pos rpt time Tp).
+  cbn [m_pos m_tilt m_time].
+  assert (HTt : 0 <= Tt < 4294967296) by (apply u32_range).
+  assert (HTp : 0 <= Tp < 4294967296) by (unfold Tp, full_time; destruct (keeps_position c); apply u32_range).
+  (* position *)
+  assert (Hrp : u32 (if up then pos - 100 else 10100 - pos) = remaining up pos)
+    by (unfold remaining; apply u32_small; destruct up; lia).
+  assert (Hrpt : rpt = 0 \/ rpt = fp_rem o (remaining up pos) Tp).
+  { unfold rpt. destruct ((0 <? snd a1) && keeps_position c); [left; reflexivity|right; rewrite Hrp; reflexivity]. }
+  pose proof (adjust_spec up pos rpt time Tp Kp Htime HTp Hrpt) as A2. cbv zeta in A2. fold a2 in A2.
+  destruct A2 as (A2x & A2r & A2td & _).
+  (* tilt *)
+  assert (Htilt : tilt_ok (fst a1) /\ 0 <= snd a1 /\
+                  (tilt_supported c = true -> known tilt = true ->
+                   (tilt_type c = TILT_ONLY_CLOSED -> pos < 10100 -> tilt = 100) ->
+                   known (fst a1) = true /\ 0 <= remaining up (fst a1) <= remaining up tilt)).
+  { destruct (tilt_supported c) eqn:Es.
+    - (* tilting supported: tilt1 is a known value *)
+      assert (K1 : 100 <= tilt1 <= 10100).
+      { unfold tilt1. cbn [andb]. destruct (known tilt) eqn:K; cbn [negb]; [apply known_true in K; lia|lia]. }
+      assert (K2 : 100 <= tilt2 <= 10100) by (unfold tilt2; destruct fixed; lia).
+      assert (Hrtt : rtt = 0 \/ rtt = fp_rem o (remaining up tilt2) Tt).
+      { unfold rtt, tilt2. destruct fixed; [left; reflexivity|right]. f_equal. unfold remaining. apply u32_small. destruct up; lia. }
+      pose proof (adjust_spec up tilt2 rtt time Tt K2 Htime HTt Hrtt) as A1. cbv zeta in A1. fold a1 in A1.
+      destruct A1 as (A1x & A1r & A1td & _).
+      split; [right; right; lia|]. split; [lia|].
+      intros _ K Hfix. split; [apply known_true; lia|].
+      assert (tilt1 = tilt) by (unfold tilt1; rewrite K; reflexivity).
+      assert (tilt2 = tilt).
+      { unfold tilt2, fixed. destruct (tilt_type c =? TILT_ONLY_CLOSED) eqn:E3; cbn [andb]; [|congruence].
+        destruct (pos <? 10100) eqn:E4; [|congruence]. apply Z.eqb_eq in E3. apply Z.ltb_lt in E4.
+        rewrite (Hfix E3 E4). reflexivity. }
+      rewrite H0 in A1r. lia.
+    - (* not supported: there is no tilting time, the tilt block is skipped *)
+      assert (tilt_ms c = 0) by (apply unsupported_no_tilt_time; auto).
+      assert (Tt = 0) by (unfold Tt; rewrite H; reflexivity).
+      assert (rtt = 0) by (unfold rtt; destruct fixed; [reflexivity|]; rewrite H0; apply (FP0 o OK)).
+      assert (a1 = (tilt2, 0)) by (unfold a1, adjust; rewrite H1; reflexivity).
+      rewrite H2. cbn [fst snd]. split; [|split; [lia|congruence]].
+      unfold tilt2, tilt1. cbn [andb]. destruct fixed; [right; right; lia|exact Ht]. }
+  destruct Htilt as (T1 & T2 & T3).
+  split; [right; lia|]. split; [exact T1|]. split.
+  { destruct (0 <? rpt).
+    - destruct (time <? snd a2) eqn:E5; [lia|apply Z.ltb_ge in E5; lia].
+    - destruct (time <? snd a1) eqn:E5; [lia|apply Z.ltb_ge in E5; lia]. }
+  split.
+  - intros _. split; [apply known_true; lia|lia].
+  - exact T3.
+Qed.
+
+(* ---------- supla_esp_gpio_rs_calibrate ---------- *)
+Lemma calibrate_spec c pos tilt full_time time p :
+  pos_ok pos -> tilt_ok tilt -> p = 100 \/ p = 10100 ->
+  pos_ok (fst (calibrate o c pos tilt full_time time p)) /\ tilt_ok (snd (calibrate o c pos tilt full_time time p)) /\
+  (known pos = true -> calibrate o c pos tilt full_time time p = (pos, tilt)).
+Proof.
+  intros Hp Ht Hpp. unfold calibrate.
+  destruct (known pos) eqn:K; cbn [negb andb].
+  - cbn [fst snd]. auto.
+  - destruct (0 <? full_time); cbn [fst snd]; [|repeat split; auto; congruence].
+    destruct (fp_cal o full_time <=? time / 1000); cbn [fst snd].
+    + repeat split; try congruence; [right; lia|]. destruct (tilt_supported c); [right; right; lia|right; left; reflexivity].
+    + repeat split; try congruence; [left; reflexivity|right; left; reflexivity].
+Qed.
+
+(* ---------- the timer callback: range ---------- *)
+Definition range_ok (s : st) : Prop :=
+  pos_ok (pos s) /\ tilt_ok (tilt s) /\ 0 <= up_time s < 4294967296 /\ 0 <= down_time s < 4294967296.
+
+Lemma timer_cb_range c boot s dt : wf_cfg c -> range_ok s -> range_ok (timer_cb o c boot s dt).
+Proof.
+  intros W (Hp & Ht & Hu & Hd). unfold timer_cb.
+  set (t := u32 (boot + (now s + dt))). set (el := u32 (t - last_time s)).
+  destruct (dir s =? RELAY_UP) eqn:E1; [|destruct (dir s =? RELAY_DOWN) eqn:E2].
+  - pose proof (calibrate_spec c (pos s) (tilt s) (full_open c) (u32 (up_time s + el)) 100 Hp Ht ltac:(auto)) as (C1 & C2 & _).
+    destruct (calibrate o c (pos s) (tilt s) (full_open c) (u32 (up_time s + el)) 100) as [p1 t1]. cbn [fst snd] in C1, C2.
+    pose proof (move_position_spec c p1 t1 (u32 (up_time s + el)) (full_open c) true W C1 C2 (u32_range _)) as (M1 & M2 & M3 & _).
+    pose proof (u32_range (up_time s + el)).
+    unfold range_ok. cbn [pos tilt up_time down_time]. repeat split; auto; lia.
+  - pose proof (calibrate_spec c (pos s) (tilt s) (full_close c) (u32 (down_time s + el)) 10100 Hp Ht ltac:(auto)) as (C1 & C2 & _).
+    destruct (calibrate o c (pos s) (tilt s) (full_close c) (u32 (down_time s + el)) 10100) as [p1 t1]. cbn [fst snd] in C1, C2.
+    pose proof (move_position_spec c p1 t1 (u32 (down_time s + el)) (full_close c) false W C1 C2 (u32_range _)) as (M1 & M2 & M3 & _).
+    pose proof (u32_range (down_time s + el)).
+    unfold range_ok. cbn [pos tilt up_time down_time]. repeat split; auto; lia.
+  - unfold range_ok. cbn [pos tilt up_time down_time]. repeat split; auto; lia.
+Qed.
+
+Definition ev_ok (e : ev) : Prop :=
+  match e with Poke p t => pos_ok p /\ tilt_ok t | _ => True end.
+
+Lemma step_range c boot s e : wf_cfg c -> ev_ok e -> range_ok s -> range_ok (step o c boot s e).
+Proof.
+  intros W He R. destruct e as [d|p t|dt]; cbn [step].
+  - destruct R as (A & B & C & D). unfold range_ok; cbn [pos tilt up_time down_time]; auto.
+  - destruct R as (A & B & C & D). destruct He. unfold range_ok; cbn [pos tilt up_time down_time]; auto.
+  - apply timer_cb_range; auto.
+Qed.
+
+Theorem C09_range_thm c boot s evs :
+  wf_cfg c -> Forall ev_ok evs -> range_ok s ->
+  let s' := run o c boot s evs in
+  range_ok s' /\ rep_ok (current_position (pos s')) /\ rep_ok (current_tilt c (tilt s')).
+Proof.
+  intros W H. revert s. induction H as [|e r He Hr IH]; intros s R; cbn [run].
+  - split; [exact R|]. split; [apply current_position_range|apply current_tilt_range].
+  - apply IH. apply step_range; auto.
+Qed.
+
+Lemma init_range c p0 t0 now0 : pos_ok p0 -> tilt_ok t0 -> range_ok (init c p0 t0 now0).
+Proof.
+  intros. unfold init, range_ok; cbn [pos tilt up_time down_time].
+  repeat split; auto; try lia. destruct (tilt_supported c); [auto|left; reflexivity].
+Qed.
+
+(* ---------- direction ---------- *)
+Definition dir_of (up : bool) : Z := if up then RELAY_UP else RELAY_DOWN.
+Definition full_of (c : cfg) (up : bool) : Z := if up then full_open c else full_close c.
+Definition carry_of (up : bool) (s : st) : Z := if up then up_time s else down_time s.
+
+(* for "tilting only when fully closed" the stored tilt is 0 % whenever the blind is not fully closed *)
+Definition fixed_tilt_consistent (c : cfg) (s : st) : Prop :=
+  tilt_type c = TILT_ONLY_CLOSED -> pos s < 10100 -> tilt s = 100.
+
+Theorem C09_direction_thm c boot s dt up :
+  wf_cfg c -> range_ok s -> dir s = dir_of up -> known (pos s) = true ->
+  let s' := timer_cb o c boot s dt in
+  known (pos s') = true /\ 0 <= remaining up (pos s') <= remaining up (pos s) /\
+  (tilt_supported c = true -> known (tilt s) = true -> fixed_tilt_consistent c s ->
+   known (tilt s') = true /\ 0 <= remaining up (tilt s') <= remaining up (tilt s)).
+Proof.
+  intros W (Hp & Ht & Hu & Hd) Hdir K. cbv zeta. unfold timer_cb.
+  set (t := u32 (boot + (now s + dt))). set (el := u32 (t - last_time s)).
+  pose proof consts_ok as CF.
+  destruct up; unfold dir_of in Hdir.
+  - replace (dir s =? RELAY_UP) with true by (symmetry; apply Z.eqb_eq; exact Hdir).
+    pose proof (calibrate_spec c (pos s) (tilt s) (full_open c) (u32 (up_time s + el)) 100 Hp Ht ltac:(auto)) as (_ & _ & C3).
+    rewrite (C3 K).
+    pose proof (move_position_spec c (pos s) (tilt s) (u32 (up_time s + el)) (full_open c) true W Hp Ht (u32_range _)) as (_ & _ & _ & M4 & M5).
+    cbn [pos tilt]. split; [apply M4; exact K|]. split; [apply M4; exact K|].
+    intros S Kt F. apply M5; auto.
+  - assert (dir s =? RELAY_UP = false) by (apply Z.eqb_neq; rewrite Hdir, (cf_down CF), (cf_up CF); lia).
+    rewrite H. replace (dir s =? RELAY_DOWN) with true by (symmetry; apply Z.eqb_eq; exact Hdir).
+    pose proof (calibrate_spec c (pos s) (tilt s) (full_close c) (u32 (down_time s + el)) 10100 Hp Ht ltac:(auto)) as (_ & _ & C3).
+    rewrite (C3 K).
+    pose proof (move_position_spec c (pos s) (tilt s) (u32 (down_time s + el)) (full_close c) false W Hp Ht (u32_range _)) as (_ & _ & _ & M4 & M5).
+    cbn [pos tilt]. split; [apply M4; exact K|]. split; [apply M4; exact K|].
+    intros S Kt F. apply M5; auto.
+Qed.
+
+
+(* ---------- accounting for a roller shutter (no tilting) ---------- *)
+Definition rs_cfg (c : cfg) : Prop := tilt_type c = 0 /\ tilt_ms c = 0.
+(* the previous callback (or initialisation of last_time) happened at the current instant *)
+Definition synced (boot : Z) (s : st) : Prop := last_time s = u32 (boot + now s).
+
+Lemma adjust_zero up x time Tq : adjust o up x 0 time Tq = (x, 0).
+Proof. reflexivity. Qed.
+
+Lemma move_position_rs c pos tilt time full_ms up :
+  rs_cfg c -> known pos = true -> 0 < full_ms * 1000 < 4294967296 ->
+  let T := full_ms * 1000 in
+  let a := adjust o up pos (fp_rem o (remaining up pos) T) time T in
+  let m := move_position o c pos tilt time full_ms up in
+  m_pos m = fst a /\ m_tilt m = tilt /\ m_time m = (if time <? snd a then 0 else time - snd a).
+Proof.
+  intros [H0 H1] K HT. cbv zeta. unfold move_position, keeps_position, tilt_supported.
+  rewrite K, H0, H1. cbn [negb orb].
+  replace (full_ms =? 0) with false by (symmetry; apply Z.eqb_neq; lia).
+  replace (0 =? TILT_KEEP_POSITION) with false by reflexivity.
+  replace (0 =? TILT_ONLY_CLOSED) with false by reflexivity.
+  replace (0 =? 0) with true by reflexivity. cbn [negb orb andb].
+  replace (u32 (0 * 1000)) with 0 by reflexivity.
+  rewrite (FP0 o OK). rewrite adjust_zero. cbn [fst snd].
+  replace (0 <? 0) with false by reflexivity. cbn [andb].
+  rewrite (u32_small (full_ms * 1000)) by lia.
+  apply known_true in K.
+  replace (u32 (if up then pos - 100 else 10100 - pos)) with (remaining up pos)
+    by (unfold remaining; symmetry; apply u32_small; destruct up; lia).
+  cbn [m_pos m_tilt m_time].
+  split; [reflexivity|]. split; [reflexivity|].
+  destruct (0 <? fp_rem o (remaining up pos) (full_ms * 1000)) eqn:E; [reflexivity|].
+  unfold adjust. rewrite E. reflexivity.
+Qed.
+
+Lemma timer_cb_rs c boot s dt up :
+  rs_cfg c -> synced boot s -> 0 <= dt -> dir s = dir_of up -> known (pos s) = true ->
+  0 < full_of c up * 1000 < 4294967296 -> 0 <= carry_of up s -> carry_of up s + dt < 4294967296 ->
+  let T := full_of c up * 1000 in
+  let time := carry_of up s + dt in
+  let a := adjust o up (pos s) (fp_rem o (remaining up (pos s)) T) time T in
+  let s' := timer_cb o c boot s dt in
+  pos s' = fst a /\ carry_of up s' = (if time <? snd a then 0 else time - snd a) /\ tilt s' = tilt s /\
+  synced boot s' /\ now s' = now s + dt.
+Proof.
+  intros RS Sy Hdt Hdir K HT Hc Hsum. cbv zeta. unfold timer_cb.
+  assert (Hel : u32 (u32 (boot + (now s + dt)) - last_time s) = dt).
+  { rewrite Sy. pose proof (u32_diff_shift boot (now s + dt) (now s)) as X.
+    replace (now s + dt - now s) with dt in X by lia. apply X. lia. }
+  rewrite Hel.
+  pose proof consts_ok as CF.
+  destruct up; unfold dir_of, full_of, carry_of in *.
+  - replace (dir s =? RELAY_UP) with true by (symmetry; apply Z.eqb_eq; exact Hdir).
+    rewrite (u32_small (up_time s + dt)) by lia.
+    unfold calibrate. rewrite K. cbn [negb andb].
+    pose proof (move_position_rs c (pos s) (tilt s) (up_time s + dt) (full_open c) true RS K HT) as M. cbv zeta in M.
+    destruct M as (M1 & M2 & M3).
+    cbn [pos tilt up_time down_time last_time now]. unfold synced. cbn [last_time now].
+    repeat split; auto.
+  - assert (Hn : dir s =? RELAY_UP = false) by (apply Z.eqb_neq; rewrite Hdir, (cf_down CF), (cf_up CF); lia).
+    rewrite Hn. replace (dir s =? RELAY_DOWN) with true by (symmetry; apply Z.eqb_eq; exact Hdir).
+    rewrite (u32_small (down_time s + dt)) by lia.
+    unfold calibrate. rewrite K. cbn [negb andb].
+    pose proof (move_position_rs c (pos s) (tilt s) (down_time s + dt) (full_close c) false RS K HT) as M. cbv zeta in M.
+    destruct M as (M1 & M2 & M3).
+    cbn [pos tilt up_time down_time last_time now]. unfold synced. cbn [last_time now].
+    repeat split; auto.
+Qed.
+
+Fixpoint run_cbs (c : cfg) (boot : Z) (s : st) (ds : list Z) : st :=
+  match ds with [] => s | d :: r => run_cbs c boot (timer_cb o c boot s d) r end.
+(* the output of direction `up` is (still) energised when each of the callbacks starts *)
+Fixpoint motor_on (c : cfg) (boot : Z) (up : bool) (s : st) (ds : list Z) : Prop :=
+  match ds with [] => True | d :: r => dir s = dir_of up /\ motor_on c boot up (timer_cb o c boot s d) r end.
+Definition sumz (l : list Z) : Z := fold_right Z.add 0 l.
+
+(* accounting invariant: R0 = distance to the end stop at the start of the run, e = time run so far
+   (including the carry present at the start), k = number of callbacks so far *)
+Definition acc_inv (boot : Z) (up : bool) (T R0 : Z) (s : st) (e k : Z) : Prop :=
+  synced boot s /\ known (pos s) = true /\
+  let r := remaining up (pos s) in let cy := carry_of up s in
+  0 <= cy <= e /\ 0 <= r <= R0 /\
+  10000 * (e - cy) <= (R0 - r) * T /\ (R0 - r) * T <= 10000 * (e - cy) + 20000 * k /\
+  (0 < k -> 0 < r -> 10000 * cy < T + 10000).
+
+Lemma acc_step c boot up R0 s e k dt :
+  rs_cfg c -> 20000 <= full_of c up * 1000 < 4294967296 -> 0 <= k -> 0 <= dt -> e + dt < 4294967296 ->
+  dir s = dir_of up ->
+  acc_inv boot up (full_of c up * 1000) R0 s e k ->
+  acc_inv boot up (full_of c up * 1000) R0 (timer_cb o c boot s dt) (e + dt) (k + 1).
+Proof.
+  intros RS HT Hk Hdt He Hdir (Sy & K & I). cbv zeta in I. destruct I as (Ic & Ir & I2 & I1 & I3).
+  set (T := full_of c up * 1000) in *.
+  pose proof (timer_cb_rs c boot s dt up RS Sy Hdt Hdir K ltac:(lia) ltac:(lia) ltac:(lia)) as TC.
+  cbv zeta in TC. fold T in TC. destruct TC as (P1 & P2 & _ & P4 & _).
+  pose proof K as Kp. apply known_true in Kp.
+  pose proof (adjust_spec up (pos s) (fp_rem o (remaining up (pos s)) T) (carry_of up s + dt) T Kp ltac:(lia) ltac:(lia) (or_intror eq_refl)) as A.
+  cbv zeta in A. rewrite <- P1, <- P2 in A.
+  destruct A as (A1 & A2 & A3 & A4 & A5 & A6 & A7 & _).
+  unfold acc_inv. split; [exact P4|]. split; [apply known_true; exact A1|]. cbv zeta.
+  set (r := remaining up (pos s)) in *. set (r' := remaining up (pos (timer_cb o c boot s dt))) in *.
+  set (cy := carry_of up s) in *. set (cy' := carry_of up (timer_cb o c boot s dt)) in *.
+  split; [lia|]. split; [lia|]. split; [lia|]. split; [lia|].
+  intros _ Hr'. apply A7; auto. lia.
+Qed.
+
+Lemma acc_run c boot up R0 ds : forall s e k,
+  rs_cfg c -> 20000 <= full_of c up * 1000 < 4294967296 -> 0 <= k ->
+  Forall (fun d => 0 <= d) ds -> e + sumz ds < 4294967296 ->
+  motor_on c boot up s ds ->
+  acc_inv boot up (full_of c up * 1000) R0 s e k ->
+  acc_inv boot up (full_of c up * 1000) R0 (run_cbs c boot s ds) (e + sumz ds) (k + Z.of_nat (length ds)).
+Proof.
+  induction ds as [|d r IH]; intros s e k RS HT Hk Hd He Hon I.
+  - cbn [run_cbs sumz fold_right length Z.of_nat]. replace (e + 0) with e by lia. replace (k + 0) with k by lia. exact I.
+  - cbn [run_cbs]. inversion Hd as [|? ? Hd0 Hdr]; subst. destruct Hon as [Hdir Hon].
+    assert (Hs : sumz (d :: r) = d + sumz r) by reflexivity.
+    assert (Hsr : 0 <= sumz r).
+    { clear -Hdr. induction Hdr; cbn [sumz fold_right]; [lia|]. unfold sumz in IHHdr. lia. }
+    rewrite Hs in *.
+    replace (e + (d + sumz r)) with ((e + d) + sumz r) by lia.
+    replace (k + Z.of_nat (length (d :: r))) with ((k + 1) + Z.of_nat (length r)) by (cbn [length]; lia).
+    apply IH; auto; try lia.
+    apply acc_step; auto; lia.
+Qed.
+
+(* The accounting theorem for a calibrated roller shutter: after callbacks at arbitrary intervals ds
+   (sum t) with the motor energised in one direction, from a known position and a carry cy0, the stored
+   position has moved towards the end stop by `moved` with
+      10000 (t + cy0 - carry) <= moved * T <= 10000 (t + cy0 - carry) + 20000 * n
+   i.e. the time not yet turned into position is exactly the carry, up to 2 microseconds per callback,
+   and the carry itself is below one position unit (T/10000 + 1 microseconds) unless the end stop is reached. *)
+Theorem C09_accounting_rs_thm c boot up s ds :
+  rs_cfg c -> 20000 <= full_of c up * 1000 < 4294967296 ->
+  synced boot s -> known (pos s) = true -> 0 <= carry_of up s ->
+  Forall (fun d => 0 <= d) ds -> carry_of up s + sumz ds < 4294967296 ->
+  motor_on c boot up s ds ->
+  let T := full_of c up * 1000 in
+  let s' := run_cbs c boot s ds in
+  let e := carry_of up s + sumz ds in
+  let n := Z.of_nat (length ds) in
+  let moved := remaining up (pos s) - remaining up (pos s') in
+  known (pos s') = true /\ 0 <= remaining up (pos s') /\ 0 <= moved /\
+  0 <= carry_of up s' <= e /\
+  10000 * (e - carry_of up s') <= moved * T <= 10000 * (e - carry_of up s') + 20000 * n /\
+  (0 < n -> 0 < remaining up (pos s') -> 10000 * carry_of up s' < T + 10000).
+Proof.
+  intros RS HT Sy K Hc Hd He Hon. cbv zeta.
+  assert (I0 : acc_inv boot up (full_of c up * 1000) (remaining up (pos s)) s (carry_of up s) 0).
+  { unfold acc_inv. split; [exact Sy|]. split; [exact K|]. cbv zeta. apply known_true in K.
+    assert (0 <= remaining up (pos s)) by (unfold remaining; destruct up; lia).
+    repeat split; try lia. }
+  pose proof (acc_run c boot up (remaining up (pos s)) ds s (carry_of up s) 0 RS HT ltac:(lia) Hd He Hon I0) as (S' & K' & I).
+  cbv zeta in I. destruct I as (Ic & Ir & I2 & I1 & I3).
+  replace (0 + Z.of_nat (length ds)) with (Z.of_nat (length ds)) in * by lia.
+  repeat split; auto; try lia.
+Qed.
+
+(* the same in position units: the distance moved is the ideal floor(10000 t / T), clamped at the end stop,
+   within -1 .. +1 + ceil(20000 n / T) units; with intervals of at least 1 ms that is at most 1 + 20 t / T + 1 units *)
+Lemma accounting_units T R0 r' e cy n :
+  20000 <= T -> 0 <= r' <= R0 -> 0 <= cy <= e -> 0 <= n ->
+  10000 * (e - cy) <= (R0 - r') * T <= 10000 * (e - cy) + 20000 * n ->
+  (0 < r' -> 10000 * cy < T + 10000) ->
+  let moved := R0 - r' in
+  let ideal := Z.min R0 (10000 * e / T) in
+  ideal - 1 <= moved <= ideal + 1 + (20000 * n) / T + 1.
+Proof.
+  intros HT Hr Hc Hn [I2 I1] I3. cbv zeta.
+  set (q := 10000 * e / T).
+  pose proof (div_lo (10000 * e) T ltac:(lia)) as Qlo. pose proof (div_hi (10000 * e) T ltac:(lia)) as Qhi. fold q in Qlo, Qhi.
+  set (w := 20000 * n / T).
+  pose proof (div_lo (20000 * n) T ltac:(lia)) as Wlo. pose proof (div_hi (20000 * n) T ltac:(lia)) as Whi. fold w in Wlo, Whi.
+  set (M := (R0 - r') * T) in *.
+  assert (HM : M = T * (R0 - r')) by (unfold M; lia).
+  split.
+  - (* lower bound *)
+    destruct (Z.eq_dec r' 0) as [->|Hr0].
+    + apply Z.le_trans with (R0 - 1); [|lia]. pose proof (Z.le_min_l R0 q). lia.
+    + assert (Hcy : 10000 * cy < T + 10000) by (apply I3; lia).
+      apply Z.le_trans with (q - 1); [pose proof (Z.le_min_r R0 q); lia|].
+      (* T*(moved) >= 10000 e - 10000 cy > 10000 e - T - 10000 >= T*q - T - 10000, and 10000 <= T/2 *)
+      assert (T * (q - 2) < T * (R0 - r')) by lia.
+      assert (q - 2 < R0 - r') by (apply Z.mul_lt_mono_pos_l with T; lia). lia.
+  - (* upper bound *)
+    assert (R0 - r' <= R0) by lia.
+    assert (T * (R0 - r') < T * (q + w + 2)) by lia.
+    assert (R0 - r' < q + w + 2) by (apply Z.mul_lt_mono_pos_l with T; lia).
+    assert (0 <= w) by (unfold w; apply div_nonneg; lia).
+    destruct (Z.min_spec R0 q) as [[_ ->]|[_ ->]]; lia.
+Qed.
+
+(* end to end: the time seen by the callbacks differs from the true run time of the motor by less than one
+   callback interval at each end (nominal 10 ms + lateness <= 20 ms: 30 ms), so the stored position is the
+   ideal one for the true run time within one percentage point (100 units) plus the travel of 30 ms *)
+Lemma sumz_ge l m : Forall (fun d => m <= d) l -> m * Z.of_nat (length l) <= sumz l.
+Proof. induction 1; cbn [sumz fold_right length]; [lia|]. unfold sumz in IHForall. lia. Qed.
+
+Lemma ideal_lipschitz T R0 e t L :
+  0 < T -> 0 <= e -> 0 <= t -> 0 <= L -> e - L <= t <= e + L ->
+  Z.min R0 (10000 * e / T) - (10000 * L / T + 1) <= Z.min R0 (10000 * t / T) <= Z.min R0 (10000 * e / T) + (10000 * L / T + 1).
+Proof.
+  intros HT He Ht HL Hd.
+  set (qe := 10000 * e / T). set (qt := 10000 * t / T). set (ql := 10000 * L / T).
+  pose proof (div_lo (10000 * e) T HT) as E1. pose proof (div_hi (10000 * e) T HT) as E2. fold qe in E1, E2.
+  pose proof (div_lo (10000 * t) T HT) as T1. pose proof (div_hi (10000 * t) T HT) as T2. fold qt in T1, T2.
+  pose proof (div_lo (10000 * L) T HT) as L1. pose proof (div_hi (10000 * L) T HT) as L2. fold ql in L1, L2.
+  assert (A : qt < qe + ql + 2) by (apply Z.mul_lt_mono_pos_l with T; lia).
+  assert (B : qe < qt + ql + 2) by (apply Z.mul_lt_mono_pos_l with T; lia).
+  destruct (Z.min_spec R0 qe) as [[? ->]|[? ->]]; destruct (Z.min_spec R0 qt) as [[? ->]|[? ->]]; lia.
+Qed.
+
+Theorem C09_end_to_end_rs_thm c boot up s ds t_true :
+  rs_cfg c -> 20000 <= full_of c up * 1000 < 4294967296 ->
+  synced boot s -> known (pos s) = true -> carry_of up s = 0 ->
+  Forall (fun d => 1000 <= d) ds -> sumz ds < 4294967296 -> sumz ds <= 4 * (full_of c up * 1000) ->
+  motor_on c boot up s ds ->
+  0 <= t_true -> sumz ds - 30000 <= t_true <= sumz ds + 30000 ->
+  let T := full_of c up * 1000 in
+  let moved := remaining up (pos s) - remaining up (pos (run_cbs c boot s ds)) in
+  let ideal := Z.min (remaining up (pos s)) (10000 * t_true / T) in
+  ideal - (100 + (10000 * 30000 / T + 1)) <= moved <= ideal + (100 + (10000 * 30000 / T + 1)).
+Proof.
+  intros RS HT Sy K Hc0 Hd He H4 Hon Ht Hdiff. cbv zeta.
+  assert (Hd0 : Forall (fun d => 0 <= d) ds) by (eapply Forall_impl; [|exact Hd]; cbn; intros; lia).
+  pose proof (C09_accounting_rs_thm c boot up s ds RS HT Sy K ltac:(lia) Hd0 ltac:(lia) Hon) as A.
+  cbv zeta in A. rewrite Hc0 in A. replace (0 + sumz ds) with (sumz ds) in A by lia.
+  destruct A as (K' & A1 & A2 & A3 & A4 & A5).
+  pose proof (sumz_ge ds 1000 Hd) as Hn.
+  set (n := Z.of_nat (length ds)) in *. set (T := full_of c up * 1000) in *.
+  set (R0 := remaining up (pos s)) in *. set (r' := remaining up (pos (run_cbs c boot s ds))) in *.
+  assert (Hn0 : 0 <= n) by (unfold n; lia).
+  destruct (Z.eq_dec n 0) as [Hz|Hz].
+  - (* no callback at all: nothing moved, the true run time is below 30 ms *)
+    assert (ds = []) by (destruct ds; [reflexivity|cbn [length] in n; unfold n in Hz; lia]).
+    subst ds. cbn [run_cbs] in r'. cbn [sumz fold_right] in *. unfold r'. fold R0.
+    replace (R0 - R0) with 0 by lia.
+    assert (0 <= R0) by (apply known_true in K; unfold R0, remaining; destruct up; lia).
+    assert (0 <= 10000 * t_true / T) by (apply div_nonneg; lia).
+    assert (10000 * t_true / T <= 10000 * 30000 / T) by (apply Z.div_le_mono; lia).
+    assert (0 <= 10000 * 30000 / T) by (apply div_nonneg; lia).
+    destruct (Z.min_spec R0 (10000 * t_true / T)) as [[? ->]|[? ->]]; lia.
+  - pose proof (accounting_units T R0 r' (sumz ds) (carry_of up (run_cbs c boot s ds)) n ltac:(lia) ltac:(lia) ltac:(lia) Hn0 A4 (A5 ltac:(lia))) as U.
+    cbv zeta in U.
+    assert (W : 20000 * n / T <= 80).
+    { assert (20000 * n / T < 81); [|lia]. apply Z.div_lt_upper_bound; lia. }
+    pose proof (ideal_lipschitz T R0 (sumz ds) t_true 30000 ltac:(lia) ltac:(lia) Ht ltac:(lia) Hdiff) as Lp.
+    lia.
+Qed.
+
+End WithOps.
+
+(* ---------- facade blind, "change position while tilting": the tilt estimate is wrong ---------- *)
+(* Witness on the bit-exact instance `fops` (also replayed on the real code, corpus/C09/fb_mode2_tilt_fast.txt):
+   full travel 600 s, tilting 1.73 s, mode 2, exact 10 ms callbacks.  After 0.5 s of closing the stored tilt is
+   99.6 % although 0.5 s / 1.73 s = 28.9 % of the tilting time has passed: the tilt block converts the whole
+   carry into tilt at every callback while only the position block consumes it. *)
+Definition w_cfg : cfg := {| full_open := 600000; full_close := 600000; tilt_ms := 1730; tilt_type := 2; margin := 110 |}.
+Definition w_evs : list ev := [Cb 10000; SetDir 1] ++ repeat (Cb 10000) 50.
+Definition w_final : st := run fops w_cfg 1 (init w_cfg 3100 100 250000) w_evs.
+
+Lemma C09_fb_change_position_tilt_refuted_lem :
+  tilt w_final - 100 = 9860 /\
+  let ideal_tilt := 10000 * (50 * 10000) / (tilt_ms w_cfg * 1000) in
+  let tolerance := 100 + 10000 * 30000 / (tilt_ms w_cfg * 1000) + 1 in
+  ideal_tilt = 2890 /\ tolerance = 274 /\ tilt w_final - 100 > ideal_tilt + tolerance.
+Proof. vm_compute. repeat split; reflexivity. Qed.
